@@ -1,4 +1,5 @@
 import Driver.Chanq
+import Driver.PeepholeEng
 /-! `driver <engine>`: one request per line on stdin, one canonical line per request on stdout. -/
 
 partial def loop {σ : Type} (h : IO.FS.Stream) (out : IO.FS.Stream) (step : σ → String → σ × String) (s : σ) : IO Unit := do
@@ -13,4 +14,7 @@ def main (args : List String) : IO UInt32 := do
   let stdout ← IO.getStdout
   match args with
   | ["chanq"] => loop stdin stdout Driver.Chanq.step {}; return 0
+  | ["peephole"] => loop stdin stdout Driver.PeepholeEng.step (); return 0
+  | ["peepholex"] => loop stdin stdout Driver.PeepholeEng.stepX (); return 0
+  | ["peepequiv"] => loop stdin stdout Driver.PeepholeEng.stepEquiv (); return 0
   | _ => IO.eprintln "usage: driver <engine>"; return 2
